@@ -169,3 +169,13 @@ Proof.
   intros l t e idx Hwf. unfold strided_map, strided_ctor, lay_map. cbn [st_strides].
   rewrite lay_strides_cast by exact Hwf. split; reflexivity.
 Qed.
+
+(** * the default-constructed layout_stride mapping is the layout_right mapping of the default extents *)
+Theorem strided_default_spec : forall t p idx, wf_ity t ->
+  st_ext (strided_default t p) = ext_default p
+  /\ st_strides (strided_default t p) = lay_strides LRight t (ext_default p)
+  /\ strided_map t (strided_default t p) idx = lay_map LRight t (ext_default p) idx.
+Proof.
+  intros t p idx Hwf. unfold strided_default, strided_map, lay_map, lay_strides, lay_stride_raw, rank.
+  cbn [st_ext st_strides pat ext_default]. repeat split; reflexivity.
+Qed.
